@@ -5,7 +5,7 @@ SPEC = {
         "pkg": "c01",
         "shims": {"stream": "internal/stream", "adapter": "internal/protocol/adapter"},
         "runs": [{"args": ["-mode", "rt"], "corpus": "rt"}, {"args": ["-mode", "ws"], "corpus": "rtw"},
-                 {"args": ["-mode", "cw"], "corpus": "cw"}],
+                 {"args": ["-mode", "cw"], "corpus": "cw"}, {"args": ["-mode", "xport"], "corpus": "rtx"}],
     },
     "rule": ("round-trip cases: packet sequences (all 64 base types x compression x body sizes incl. 0) written by the real "
              "WritePacket and read back by the real ReadPacket through a chunk-controlled reader; chunkings: every single "
@@ -16,7 +16,10 @@ SPEC = {
              "everything in one message, single cuts, random partitions, several buffered tails per connection; body-length "
              "sweep (every length 0..4300, windows around one MSS / powers of two / multiples of 1 KiB, plain and compressed, "
              "each followed by a trailer packet); rate-limited writer (rtl); bodies of exactly the cap and cap-1, plain and "
-             "compressed (rtcap: compared in the harness, judged by the conclusion of C01_main with the regenerated constant)"),
+             "compressed (rtcap: compared in the harness, judged by the conclusion of C01_main with the regenerated constant); "
+             "QUIC and KCP run (xport): the repository's QuicAdapter / KcpAdapter listening and dialling over loopback UDP, "
+             "the real writer on one end and the real reader on the other, both directions, bodies around the transports' "
+             "segment and window sizes; the chunks are whatever quic-go / kcp-go deliver"),
     "trusted_base": [
         "Lean 4.33 kernel; axioms propext, Classical.choice, Quot.sound only (audited per theorem on every run)",
         "extractor /verif/extract (go/ast): constants and packet.Type predicates regenerated into Gen/*.lean",
